@@ -371,6 +371,9 @@ func redactPipelineStage(stage interface{}, redactFieldNames bool, keyPath []str
 						default:
 							newMap.Set(redactedKey, redactScalarValue([]string{k}, v, inSearchStage, false))
 						}
+					} else if vMap, ok := v.(*orderedmap.OrderedMap[string, any]); ok && !inSearchStage {
+						// a field-name argument may hold an expression (e.g. $sortByCount): redact its literals
+						newMap.Set(redactedKey, redactPipelineStage(vMap, redactFieldNames, newKeyPath, inSearchStage))
 					} else {
 						newMap.Set(redactedKey, v)
 					}
@@ -453,6 +456,9 @@ func redactPipelineStage(stage interface{}, redactFieldNames bool, keyPath []str
 										default:
 											newSubMap.Set(subK, redactScalarValue([]string{k}, subV, inSearchStage, false))
 										}
+									} else if subVMap, ok := subV.(*orderedmap.OrderedMap[string, any]); ok && !inSearchStage {
+										// a field-name argument may hold an expression (e.g. $bucket.groupBy, $replaceRoot.newRoot)
+										newSubMap.Set(subK, redactPipelineStage(subVMap, redactFieldNames, append(newKeyPath, subK), inSearchStage))
 									} else {
 										newSubMap.Set(subK, subV)
 									}
